@@ -23,8 +23,8 @@ def main():
         'hooks': {
             'guard': 'SIMPROCESD_VERIF',
             'enable': 'no hooks in /repo are needed: the explorer drives the real Environment.step() / '
-                      'System.simulate() from /verif (instance-level observers, public callbacks); the guard '
-                      'name is reserved and set by mc/__init__.py',
+                      'System.simulate() from /verif (instance-level give_part observers, public callbacks, a logging '
+                      'wrapper around Asset.initialize installed at run time); the guard name is reserved and set by mc/__init__.py',
             'baseline_off_cmd': BASELINE_OFF,
             'source_commits': [],
             'add_only': True,
@@ -32,16 +32,29 @@ def main():
         'engines': [
             {'name': 'E1 fork-mode explicit-state explorer', 'path': 'mc/explorer.py',
              'serves_properties': sorted(checks.CHECKS),
-             'kind_free_text': 'hand-written explicit-state model checker over the real Python objects: '
-                               'all tie-break orders + <=K injected environment operations, state matching '
-                               'by canonical digest, worlds forked by pickling'},
-            {'name': 'E2 linear replayer through the real System.simulate()/Environment.run()',
-             'path': 'mc/line.py', 'serves_properties': sorted(checks.CHECKS),
-             'kind_free_text': 'determinism gate for violations, conformance of E1 terminal states, replay artefacts'},
+             'kind_free_text': 'hand-written explicit-state model checker over the real Python objects: DFS with state matching '
+                               'by canonical digest (mc/canon.py), worlds forked by pickling, process-global library state owned '
+                               'per world (mc/globalstate.py), 16 worker processes'},
+            {'name': 'line worlds + E2 replayer through the real System.simulate()', 'path': 'mc/line.py',
+             'serves_properties': [p for p in sorted(checks.CHECKS) if p not in ('C01', 'C07', 'C09', 'C10', 'C12')],
+             'kind_free_text': 'closed systems of real devices from a declarative spec; all tie-break orders + <=K injected '
+                               'operations at three positions and between consecutive runs; monitors/reference models inside the '
+                               'world (mc/monitors.py); every violation and a sample of terminal paths (every split point) replayed '
+                               'through real (consecutive) System.simulate() calls'},
+            {'name': 'component worlds with lock-step reference models', 'path': 'mc/comp.py',
+             'serves_properties': ['C01', 'C07', 'C09', 'C10', 'C12', 'C20'],
+             'kind_free_text': 'one real component (Environment, ResourceManager, Maintainer, System registry) driven through its '
+                               'public API over a small argument alphabet up to a depth bound; linear replay through the real run loop'},
+            {'name': 'reproducibility grid and executor completion orders', 'path': 'mc/repro.py',
+             'serves_properties': ['C14'],
+             'kind_free_text': 'enumerated seed x id-offset grid of real runs, fresh interpreters with different PYTHONHASHSEED, '
+                               'simulate_multiple_times with a controllable executor completing futures in every permutation'},
         ],
         'checks': [],
         'not_applicable': [],
-        'notes': 'See DESIGN.md. All checks: ./run_check.py <ID> --tier quick|thorough; replay: ./run_check.py <ID> --replay <file>.',
+        'notes': 'See DESIGN.md (section 12 = as built). All checks: ./run_check.py <ID> --tier quick|thorough; replay: '
+                 './run_check.py <ID> --replay <file>; regression artefacts of repaired defects: replays/fixed + tests/test_replays.py; '
+                 'independently seeded breaking changes: seeded/ (tools/try_mutant.py <patch> <ID>).',
     }
     for pid in ALL:
         c = checks.CHECKS.get(pid)
@@ -56,7 +69,8 @@ def main():
             'thorough_cmd': f'./run_check.py {pid} --tier thorough',
             'evidence_file': f'evidence/{pid}.json',
             'replay_cmd_template': f'./run_check.py {pid} --replay {{path}}',
-            'engine': 'E1 fork-mode explicit-state explorer',
+            'engine': 'component worlds with lock-step reference models' if pid in ('C01', 'C07', 'C09', 'C10', 'C12')
+            else 'line worlds + E2 replayer through the real System.simulate()',
             'level_claimed': {'category': 'model_checking', 'text': c.level_text, 'design_ref': f'DESIGN.md section 5 ({pid})'},
             'level_note': c.level_note,
             'technique': c.technique,
